@@ -84,6 +84,32 @@ def absent_means_false(a):
     return False
 
 
+def prev_info_kind(p, pi):
+    """where the transition's `previous_info` comes from: 'pre-state' when it is what `account.take()` returned or a copy made before
+    the account was first taken / overwritten on this path; 'post-mutation' when the copy is made after that"""
+    def is_account(t):
+        return any(x[0] == 'field' and x[2].endswith('.account') for x in subterms(t))
+    muts = [i for i, e in enumerate(p.events)
+            if (e.kind == 'call' and (norm_callee(e.d['callee']).endswith('Option::take') or norm_callee(e.d['callee']).endswith('mem::take') or norm_callee(e.d['callee']).endswith('mem::replace'))
+                and e.d['args'] and is_account(e.d['args'][0]))
+            or (e.kind == 'assign' and e.d['place'][0] == 'field' and e.d['place'][2].endswith('.account'))]
+    first = muts[0] if muts else len(p.events)
+    if first < len(p.events) and p.events[first].kind == 'call' and mentions(pi, p.events[first].d['result']):
+        return 'pre-state'
+    if is_account(pi):
+        # a copy of the account: when was it taken?
+        made = [i for i, e in enumerate(p.events) if e.kind == 'assign' and e.d['place'][0] == 'var' and e.d.get('copied') and e.d['value'] == pi]
+        if made:
+            return 'pre-state' if made[0] < first else 'post-mutation'
+        return 'pre-state' if not muts else 'unknown'
+    if pi[0] == 'agg' and pi[2] == 'None' and first < len(p.events) and p.events[first].kind == 'call':
+        # nothing was there: the take itself was decided None on this path
+        tk = p.events[first].d['result']
+        if any(option_fact(a) and option_fact(a)[1] == 'None' and mentions(option_fact(a)[0], tk) for a in p.events if a.kind == 'atom'):
+            return 'pre-state'
+    return 'other'
+
+
 def lifecycle_features(fn, facts):
     """comparable features of a CacheAccount lifecycle method (robust to the PlainAccount vs
     AccountInfo representation difference): (early-None status set, storage_was_destroyed
@@ -121,7 +147,7 @@ def lifecycle_features(fn, facts):
                 prev_old = f['previous_status'][0] == 'field' and f['previous_status'][2].endswith('.status')
                 swd = f['storage_was_destroyed'][1] if f['storage_was_destroyed'][0] == 'const' else 'non-const'
                 storage = 'default' if has_call(f['storage'], '::default') else 'param' if f['storage'][0] == 'arg' else 'other'
-                feats.add(('transition', tuple(sorted(cond)) if cond != allv else 'any', info_none, st_new, prev_old, swd, storage))
+                feats.add(('transition', tuple(sorted(cond)) if cond != allv else 'any', info_none, st_new, prev_old, swd, storage, prev_info_kind(p, f['previous_info'])))
     return feats, calls_
 
 
@@ -142,7 +168,8 @@ def SIB_lifecycle(ctx):
     mine = ctx.fn('parallel_state::CacheAccountInfo::account_info_change')
     a, ca = lifecycle_features(mine, facts)
     ok = ca == {'AccountStatus::on_changed'} and {x for x in a if x[0] == 'on_changed-arg'} == {('on_changed-arg', 'pred'), ('on_changed-arg', 'false')} and \
-        any(x[0] == 'transition' and x[2] is False and x[3] and x[4] and x[5] == 'false' and x[6] == 'default' for x in a)
+        any(x[0] == 'transition' and x[2] is False and x[3] and x[4] and x[5] == 'false' and x[6] == 'default' for x in a) and \
+        all(x[7] == 'pre-state' for x in a if x[0] == 'transition')
     ctx.ob('SIB', mine, 'balance-change-transition', ok, f'{sorted(map(str, a))[:4]}', site=mine.loc(mine.b['lo']),
            what='increment/drain balance = on_changed(previous info had no code and nonce), storage untouched, storage_was_destroyed=false (as in revm CacheAccount::account_info_change)')
     theirs = ctx.fn('ext::revm_database::states::CacheAccount::increment_balance')
